@@ -37,6 +37,10 @@ HRem    == StructA("C", <<U8, U32, U16>>, <<Plain, ARem(0, 0), AAdd(2)>>)      \
 HEnum   == Enum("", <<Var(0, <<>>), Var(0, <<U8>>), Var(1, <<>>)>>)            \* variant appended at 1
 HNest   == Vec("Vec", HAdd)
 Same    == Struct("C", <<U32, U32>>)                                           \* identical on both sides
+HRem2   == StructA("C", <<U32, U32, U32>>, <<ARem(0, 1), Plain, AAdd(1)>>)    \* packed; first field removed after 1, last added at 1 (< removal)
+HPad    == StructA("C", <<U32, U16, U16>>, <<Plain, Plain, AAdd(1)>>)          \* the new field occupies what was tail padding: same size, same old offsets
+HRemR   == StructA("C", <<U32, U32, U32>>, <<Plain, ARem(0, 0), AAdd(1)>>)     \* a removed field and an added one take the same place in memory
+HEnumR  == Enum("u8", <<Var(0, <<U8>>), Var(0, <<U8>>), Var(1, <<U8>>)>>)       \* repr(u8); gains a variant of the same size at 1
 
 \* method: [name, from, to, args, ret, refs (argument indices passed by reference)]
 \*         chg: version from which argument 1 has the incompatible type chgty (0 = never)
@@ -51,7 +55,11 @@ FamilyA == << M("add", 0, INF, <<U32, U32>>, U32, {}),
               M("newer", 1, INF, <<U8>>, U8, {}),
               M("older", 0, 0, <<U8>>, U8, {}),
               M("byref", 0, INF, <<HAdd>>, U16, {1}),
-              M("sameref", 0, INF, <<Same, U8>>, U32, {1}) >>
+              M("sameref", 0, INF, <<Same, U8>>, U32, {1}),
+              M("enref", 0, INF, <<HEnumR>>, U8, {1}),
+              M("rem2", 0, INF, <<HRem2>>, HRem2, {}),
+              M("padref", 0, INF, <<HPad>>, U16, {1}),
+              M("remref", 0, INF, <<HRemR>>, U32, {1}) >>
 FamilyB == << M("add", 0, INF, <<U32, U32>>, U32, {}),
               [M("changed", 0, INF, <<U32>>, U8, {}) EXCEPT !.chg = 2, !.chgty = Str],
               [M("count", 0, INF, <<U8>>, U8, {}) EXCEPT !.chg = 1, !.chgty = Tup(<<U8, U8>>)] >>
